@@ -229,7 +229,18 @@ def unit_query(cls):
             return [("grant_only_with_budget", z3.Implies(granted, sym.guard(tmp_vals(head, sym)))),
                     ("appends_current_index", z3.Implies(granted, z3.And(to_int(qe.n) == to_int(qh.n) + 1,
                                                                         to_int(qe.sel(to_int(qh.n))) == k))),
-                    ("at_most_one", z3.Or(to_int(qe.n) == to_int(qh.n), to_int(qe.n) == to_int(qh.n) + 1))]
+                    ("at_most_one", z3.Or(to_int(qe.n) == to_int(qh.n), to_int(qe.n) == to_int(qh.n) + 1))] + bulk(head, granted, k)
+
+        def bulk(head, granted, k):
+            """managers that draw all uniform numbers at once (RandomBudgetManager): instance k is decided by the k-th number after the
+            committed position (this is what makes a chunk equal to one-by-one processing: update advances the generator by one number per
+            instance, unit budget.<cls>.update:ensures.C10.rng_advanced_by_n) -- granted iff budget is left, the instance has a utility
+            and that number is at most the budget"""
+            if not MANAGERS[cls].get("rng_bulk"):
+                return []
+            un, _uv = to_real(head.get(util).sel(k))
+            draw = sym.stream(sym.pos0 + k)
+            return [("C10.instance_k_decided_by_the_kth_draw", granted == z3.And(sym.guard(tmp_vals(head, sym)), z3.Not(un), draw <= sym.b))]
         return {"args": [sym.obj, util], "sym": sym, "fields0": fields0, "st0": st0,
                 "loop_specs": {"loop0": LoopSpec(inv=inv, step=step)}}
 
